@@ -1,11 +1,13 @@
 //! pfv — harness binding the TLA+ specification to the real pickle-fuzzer code.
 mod common;
+mod edges;
 mod jobs;
 
 fn main() {
     let args: Vec<String> = std::env::args().skip(1).collect();
     let code = match args.first().map(|s| s.as_str()) {
         Some("run-jobs") => jobs::main(&args[1..]),
+        Some("edges") => edges::main(&args[1..]),
         _ => {
             eprintln!("usage: pfv <run-jobs|...> ...");
             2
